@@ -5,6 +5,16 @@ Import ListNotations.
 Local Open Scope Z_scope.
 
 (* ------------------------------------------------------------------ prepare_range_limit_table *)
+Ltac decide_cmp :=
+  repeat match goal with
+         | |- context [?a <=? ?b] =>
+             first [ replace (a <=? b) with true by (symmetry; apply Z.leb_le; lia)
+                   | replace (a <=? b) with false by (symmetry; apply Z.leb_gt; lia) ]
+         | |- context [?a <? ?b] =>
+             first [ replace (a <? b) with true by (symmetry; apply Z.ltb_lt; lia)
+                   | replace (a <? b) with false by (symmetry; apply Z.ltb_ge; lia) ]
+         end.
+
 Ltac split_cmp :=
   repeat match goal with
          | |- context [?a <=? ?b] => destruct (Z.leb_spec a b)
@@ -21,9 +31,13 @@ Theorem range_limit_table_shape : forall M C i, 0 < C -> 2 * C = M + 1 ->
     else if (i <? 4 * (M + 1) + C) then Some (i - 4 * (M + 1))
     else None.
 Proof.
-  intros M C i HC HM. unfold range_limit_tab, range_limit_ops.
-  cbn [rl_eval rl_start rl_len rl_kind Z.eqb Pos.eqb].
-  split_cmp; cbn [andb]; try reflexivity; try lia.
+  intros M C i HC HM.
+  destruct (Z.ltb_spec i (- (M + 1))); [|destruct (Z.ltb_spec i 0); [|destruct (Z.leb_spec i M);
+    [|destruct (Z.ltb_spec i (2 * (M + 1) + C)); [|destruct (Z.ltb_spec i (4 * (M + 1)));
+    [|destruct (Z.ltb_spec i (4 * (M + 1) + C))]]]]];
+  unfold range_limit_tab, range_limit_ops;
+  cbn [rl_eval rl_start rl_len rl_kind Z.eqb Pos.eqb];
+  decide_cmp; cbn [andb]; try reflexivity; f_equal; lia.
 Qed.
 
 Theorem range_limit_alloc_exact :
@@ -95,6 +109,26 @@ Qed.
 Lemma clamp_compl p v : 0 <= sp_max p -> clamp p (sp_max p - v) = sp_max p - clamp p v.
 Proof. intro H. unfold clamp. split_cmp; lia. Qed.
 
+Lemma ycck_index_in_clamp_range p : p = prec8 \/ p = prec12 -> forall y cb cr,
+  0 <= y <= sp_max p -> 0 <= cb <= sp_max p -> 0 <= cr <= sp_max p ->
+  let ch := chroma p false cb cr in
+  - (sp_max p + 1) <= sp_max p - (y + c0 ch) < 2 * (sp_max p + 1) + sp_center p /\
+  - (sp_max p + 1) <= sp_max p - (y + c1 ch) < 2 * (sp_max p + 1) + sp_center p /\
+  - (sp_max p + 1) <= sp_max p - (y + c2 ch) < 2 * (sp_max p + 1) + sp_center p.
+Proof.
+  intros Hp y cb cr Hy Hcb Hcr. cbv zeta. unfold chroma, c0, c1, c2, Cr_r, Cb_b, Cr_g, Cb_g. cbn [fst snd].
+  rewrite !merged_or_not_sb.
+  rewrite !Z.shiftr_div_pow2 by (vm_compute; discriminate).
+  change (2 ^ 16) with 65536. change (2 ^ (16 - 1)) with 32768.
+  repeat match goal with
+         | |- context [dfix ?m ?k] => let v := eval vm_compute in (dfix m k) in change (dfix m k) with v
+         end.
+  destruct Hp as [-> | ->];
+    change (sp_max prec8) with 255 in *; change (sp_max prec12) with 4095 in *;
+    change (sp_center prec8) with 128; change (sp_center prec12) with 2048;
+    repeat split; Z.div_mod_to_equations; lia.
+Qed.
+
 (* decompression: C,M,Y are the complements of the R,G,B of YCbCr->RGB; K passes through *)
 Theorem ycck_cmyk_channels p : (p = prec8 \/ p = prec12) -> forall y cb cr k,
   0 <= y <= sp_max p -> 0 <= cb <= sp_max p -> 0 <= cr <= sp_max p ->
@@ -102,20 +136,11 @@ Theorem ycck_cmyk_channels p : (p = prec8 \/ p = prec12) -> forall y cb cr k,
   ycck_cmyk_pixel p (y, cb, cr, k) = (sp_max p - r, sp_max p - g, sp_max p - b, k).
 Proof.
   intros Hp y cb cr k Hy Hcb Hcr.
-  pose proof (decode_index_in_clamp_range p false Hp y cb cr Hy Hcb Hcr) as H. cbv zeta in H.
+  pose proof (ycck_index_in_clamp_range p Hp y cb cr Hy Hcb Hcr) as H. cbv zeta in H.
   unfold rgb_of_ycc, rgb_of_ycc_gen, ycck_cmyk_pixel, c0, c1, c2 in *. cbn [fst snd] in *.
   set (ch := chroma p false cb cr) in *. destruct ch as [[a b] c]. cbn [fst snd] in *.
   assert (HM : 0 <= sp_max p) by lia.
-  assert (B : forall v, - (sp_max p + 1) <= y + v < 2 * (sp_max p + 1) + sp_center p ->
-              - (sp_max p + 1) <= sp_max p - (y + v) < 2 * (sp_max p + 1) + sp_center p -> 
-              rl p (sp_max p - (y + v)) = sp_max p - clamp p (y + v)).
-  { intros v H1 H2. rewrite rl_is_clamp by assumption. now apply clamp_compl. }
-  assert (Hc : 0 < sp_center p /\ sp_max p - (2 * (sp_max p + 1) + sp_center p) >= - (sp_max p + 1) - sp_center p - 1)
-    by (destruct Hp as [-> | ->]; vm_compute; split; congruence).
-  (* the complemented subscripts stay in the clamp part as well: y + v >= -(MAX+1) gives MAX - (y+v) <= 2 MAX + 1 *)
   destruct H as (H0 & H1 & H2).
-  rewrite !B; try assumption; try reflexivity.
-  all: destruct Hp as [-> | ->]; change (sp_max prec8) with 255 in *; change (sp_max prec12) with 4095 in *;
-    change (sp_center prec8) with 128 in *; change (sp_center prec12) with 2048 in *.
-  all: try lia.
+  rewrite !rl_is_clamp by assumption. rewrite !clamp_compl by assumption. reflexivity.
 Qed.
+
